@@ -354,6 +354,14 @@ let rec dec_host (s : string) : hostval =
   | 'R' -> HStruct (List.map (fun p -> match split_top p '=' with [k; v] -> (str_of_string (unhex k), dec_host v) | _ -> failwith "bad struct") (split_top (inner s 2) ','))
   | 'P' -> HPtr (dec_host (inner s 2))
   | 'Q' -> HNilPtr
+  | 'c' | 'n' ->
+    (* 'c': a map which contains itself - unrolled far beyond the machine's nesting limit; 'n<k>': maps nested k deep *)
+    let one = HInt (N0, z_of_string "1") in
+    let k = if s.[0] = 'c' then 5200 else int_of_string (String.sub s 1 (String.length s - 1)) in
+    let leaf = if s.[0] = 'c' then HMapIface [(str_of_string "a", one)]
+               else HMapIface [(str_of_string "a", one); (str_of_string "leaf", HInt (N0, z_of_string "7"))] in
+    let rec nest i acc = if i = 0 then acc else nest (i - 1) (HMapIface [(str_of_string "a", one); (str_of_string "self", acc)]) in
+    nest k leaf
   | 'K' ->
     (* the static struct types of harness/hosttypes.go, as a script may see them: exported fields and
        unexported fields of readable kinds by value; everything reflection refuses to hand over is null *)
@@ -416,6 +424,7 @@ let dec_op (objs : hostval array) (s : string) : op =
   | "exec" -> OExec (obj (if Array.length p > 1 then int_of_string p.(1) else 0))
   | "getvar" -> OGetVar (str_of_string (unhex p.(1)))
   | "dump" -> ODump
+  | "badprepare" -> ODump       (* a Prepare that fails leaves the evaluator as it was: a step without effect *)
   | x -> failwith ("bad op " ^ x)
 
 let enc_opres (r : opres) : string =
